@@ -23,7 +23,8 @@ from . import lib
 RULE = ("histories: every sequence up to length L1 over the 9-operation alphabet {get n1, get n2, select [n1,n2], "
         "select [n2,n1], put n1 v1, put n1 v2, put n2 v2, delete n1, delete n2}, up to L2 over the reduced alphabet "
         "{get n1, get n2, put n1 v2, put n1 v1, delete n1, select [n2,n1]} and over the 3-name alphabet {get n1, "
-        "get n2, get n3, put n1 v2, delete n1}; every history under cache sizes {0, 1, 2, -1} x auto_reload {on, off} "
+        "get n2, get n3, put n1 v2, delete n1}; over four names {get n1..n4}, lengths up to L2+1, size 3 (thorough: 3, 4), so that hits "
+        "BEFORE the cache is full decide later evictions; every history under cache sizes {0, 1, 2, -1} x auto_reload {on, off} "
         "on DictLoader; shorter bounds on FunctionLoader (uptodate = version check / None / always True / always "
         "False) and FileSystemLoader with os.utime-forced mtimes; layered loaders (FileSystemLoader with two search "
         "paths, ChoiceLoader of two DictLoaders) over {get, select, put / delete in layer 1 or layer 2}, where a "
@@ -31,12 +32,13 @@ RULE = ("histories: every sequence up to length L1 over the 9-operation alphabet
         "get_or_select_template.  distinct = (loader kind, auto_reload, size, history); non-trivial = a get/select "
         "follows a put or delete of a name that was loaded before.")
 
-NAMES = {1: "n1", 2: "n2", 3: "n3"}
+NAMES = {1: "n1", 2: "n2", 3: "n3", 4: "n4"}
 ALPHA_FULL = ["g:1", "g:2", "s:1,2", "s:2,1", "p:1:1", "p:1:2", "p:2:2", "d:1", "d:2"]
 ALPHA_RED = ["g:1", "g:2", "p:1:2", "p:1:1", "d:1", "s:2,1"]
 ALPHA_3 = ["g:1", "g:2", "g:3", "p:1:2", "d:1"]
-INIT = {1: 1, 2: 1, 3: 1}
-INIT2 = {1: 3, 2: 3, 3: 3}          # layered kinds: everything starts in layer 2 (versions 3, 4); layer 1 uses versions 1, 2
+ALPHA_4 = ["g:1", "g:2", "g:3", "g:4"]      # recency below capacity: sizes 2, 3, 4 over four names
+INIT = {1: 1, 2: 1, 3: 1, 4: 1}
+INIT2 = {1: 3, 2: 3, 3: 3, 4: 3}          # layered kinds: everything starts in layer 2 (versions 3, 4); layer 1 uses versions 1, 2
 ALPHA_LAY = ["g:1", "p1:1:1", "d1:1", "p2:1:4", "d2:1", "s:1,2"]
 SHADOW_SIG = "C25:shadowing-addition-in-earlier-choice-loader"
 MT0 = 1_000_000_000
@@ -359,12 +361,18 @@ def run(ctx):
         for ar in (1, 0):
             for h in full:
                 cases.append(("dict", ar, size, h))
-    for size, ar in ((1, 1), (-1, 1), (2, 0), (1, 0)):
+    for size, ar in ((1, 1), (2, 0)) if ctx.tier == "quick" else ((1, 1), (-1, 1), (2, 0), (1, 0)):
         for h in red:
             cases.append(("dict", ar, size, h))
-    for size in (1, 2):
-        for ar in (1, 0):
+    for size, ar in ((2, 1), (2, 0), (1, 1)) if ctx.tier == "quick" else ((1, 1), (1, 0), (2, 1), (2, 0)):
+        if True:
             for h in three:
+                cases.append(("dict", ar, size, h))
+    # least recently USED below capacity: a hit before the cache is full must count (sizes 3 and 4 over four names)
+    four = list(histories(ALPHA_4, 4, L2 + 1))
+    for size in ((3,) if ctx.tier == "quick" else (3, 4)):
+        for ar in (1, 0):
+            for h in four:
                 cases.append(("dict", ar, size, h))
     short = list(histories(ALPHA_FULL, 0, L1 - 1))
     for kind in ("funcV", "funcN", "funcT", "funcF"):
@@ -386,8 +394,8 @@ def run(ctx):
     # random longer histories on every kind
     for _ in range(ctx.size(1500, 20000)):
         kind = ctx.rng.choice(["dict", "fs", "funcV", "funcN", "funcT", "funcF"])
-        h = [ctx.rng.choice(ALPHA_FULL + ["g:3", "s:3,1", "p:3:2", "d:3", "p:2:1", "s:"]) for _ in range(ctx.rng.randint(6, 12))]
-        cases.append((kind, ctx.rng.choice([0, 1]), ctx.rng.choice([0, 1, 2, 3, -1]), h))
+        h = [ctx.rng.choice(ALPHA_FULL + ["g:3", "g:4", "g:4", "s:3,1", "s:4,2", "p:3:2", "d:3", "p:2:1", "p:4:2", "s:"]) for _ in range(ctx.rng.randint(6, 12))]
+        cases.append((kind, ctx.rng.choice([0, 1]), ctx.rng.choice([0, 1, 2, 3, 3, 4, -1]), h))
 
     out = ctx.driver("tc", [line(k, ar, size, h) for k, ar, size, h in cases])
     fsdir = os.path.join(ctx.bdir, "fs")
